@@ -459,10 +459,10 @@ func (st *Runtime) executeList(list *ListNode) (returnValue reflect.Value) {
 			if node.Pipe != nil {
 				v, safeWriter := st.evalPipelineExpression(node.Pipe)
 				if !safeWriter && v.IsValid() {
-					if v.Type().Implements(rendererType) {
+					if v.Type().Implements(rendererType) && !isNilInterface(v) {
 						v.Interface().(Renderer).Render(st)
 					} else {
-						_, err := fastprinter.PrintValue(st.escapeeWriter, v)
+						_, err := printValue(st.escapeeWriter, v)
 						if err != nil {
 							node.error(err)
 						}
@@ -1363,11 +1363,27 @@ func (w *escapeWriter) Write(b []byte) (int, error) {
 func (st *Runtime) evalSafeWriter(term reflect.Value, node *CommandNode, v ...reflect.Value) {
 	sw := &escapeWriter{rawWriter: st.Writer, safeWriter: term.Interface().(SafeWriter)}
 	for i := 0; i < len(v); i++ {
-		fastprinter.PrintValue(sw, v[i])
+		printValue(sw, v[i])
 	}
 	for i := 0; i < len(node.Exprs); i++ {
-		fastprinter.PrintValue(sw, st.evalPrimaryExpressionGroup(node.Exprs[i]))
+		printValue(sw, st.evalPrimaryExpressionGroup(node.Exprs[i]))
 	}
+}
+
+// isNilInterface reports whether v is a nil value of an interface type (a nil error or fmt.Stringer
+// field, map or slice element: indirectEface unwraps interface{} values only).
+func isNilInterface(v reflect.Value) bool {
+	return v.Kind() == reflect.Interface && v.IsNil()
+}
+
+// printValue prints v with fastprinter.PrintValue, except for a nil value of an interface type, which
+// prints as <nil> like a nil interface{} does (fastprinter asserts a value whose type implements error or
+// fmt.Stringer to that interface, which panics for a nil one).
+func printValue(w io.Writer, v reflect.Value) (int, error) {
+	if isNilInterface(v) {
+		return io.WriteString(w, "<nil>")
+	}
+	return fastprinter.PrintValue(w, v)
 }
 
 func (st *Runtime) evalCommandPipeExpression(node *CommandNode, value reflect.Value) (reflect.Value, bool) {
